@@ -46,7 +46,7 @@ def _t0():
     cy = top.add_chain("Y")
     r1 = top.add_residue("ALA", cx, resSeq=7, segment_id="S1")
     r2 = top.add_residue("GLY", cx, resSeq=7, segment_id="S1")
-    r3 = top.add_residue("HOH", cy, resSeq=1, segment_id="S2")
+    r3 = top.add_residue("GLY", cy, resSeq=7, segment_id="S2")     # same name and number as the last residue of chain X
     a = [top.add_atom("N", element.nitrogen, r1, serial=10), top.add_atom("CA", element.carbon, r1, serial=12),
          top.add_atom("CA", element.carbon, r2, serial=20), top.add_atom("O", element.oxygen, r3, serial=31),
          top.add_atom("OM", element.virtual_site, r3, serial=32)]
